@@ -54,3 +54,18 @@ add("C13", "exploration",
     "own canonical-signature printer and own Keccak vs Event.Signature/SignatureHash; known-answer vectors; log matching through Integration.Insert with a recording connection",
     "Generated names × type trees × indexed layouts; 16 known-answer hashes; matching logs must yield rows, logs with the same hash and any other topic count, other hashes, or no topics must yield none and never panic.",
     ABI_NOTE, "DESIGN.md §7 C13")
+
+add("C04", "exploration",
+    "effect-level ownership monitor at every commit + before/after comparison of every other pair's state around each step + per-pair reference projection at quiescence; sequential and truly concurrent interleavings with wire delays",
+    "1–2 sources × 2–4 integrations (shared or separate tables, same event with different address filters or independent declarations, integrations on one or both sources) are stepped in random sequential orders and in rounds of concurrent Converge calls with delays at both wire boundaries, with head growth, reorgs on one source and restarts. Every effect of every committed transaction must belong to the pair the transaction acts for; a step must leave every other pair's rows and positions untouched; finally each pair's rows must equal its own projection.",
+    PIPE_NOTE, "DESIGN.md §7 C04")
+
+add("C05", "exploration",
+    "commit-boundary monitor (dependent's new position vs every referenced integration's position in the same snapshot) + bounded reference-projection oracle (required ⊆ rows ⊆ allowed) over adversarial task orders",
+    "Dependency graphs from filter references on event inputs and block fields (1–3 referenced integrations, contains / !contains, and/or) are stepped in adversarial orders: dependent first, only some references started, references lagging or far ahead, a reference stepping between the dependent's two transactions (hook). In the snapshot of every commit of the dependent each referenced integration must have a position >= the dependent's; while a reference has none the dependent must not change; final rows lie between the rows required by data at or below the row's block and the rows allowed by the final referenced tables.",
+    PIPE_NOTE + " Growth-only chains; all integrations of a graph on one source.", "DESIGN.md §7 C05")
+
+add("C14", "exploration",
+    "ground-truth cell comparison on a chain whose every field value is distinct and non-zero, over all singles and pairs of selectable field names per indexing mode (exhaustive) and random larger sets",
+    "All singles and all pairs of mode-compatible field names (tx without event, log with event, trace) are run through ValidateFix and the full pipeline on a chain in which every field of every item has its own non-zero value; every stored cell is compared with what the source reported, the chosen plan and wrong columns are part of the key. Random larger sets on top.",
+    PIPE_NOTE, "DESIGN.md §7 C14")
